@@ -342,6 +342,8 @@ def ev_term(e, spec):
         return "EStart %s %s" % (zl(e[1]), "None" if e[2] is None else "(Some %s)" % zl(e[2]))
     if tag == "resume":
         return "EResume %s" % zl(e[1])
+    if tag == "resume_rejected":
+        return "EError"
     if tag == "stop_all":
         return "EStopAll"
     return None
@@ -393,7 +395,7 @@ def model_cases(spec, log, extra):
         for e in it["body"]:
             if e[0] == "start":
                 sg.append("SNew" if e[2] is None else "(SFrom %s)" % zl(e[2]))
-            elif e[0] == "resume":
+            elif e[0] in ("resume", "resume_rejected"):
                 sg.append("(SResume %s)" % zl(e[1]))
         is_spec = bool(spec.get("speculative"))
         o_its.append(iter_term(reps, it["completed"], sg, it["cb"] if is_spec else [], it["failed"]))
@@ -408,7 +410,7 @@ def model_cases(spec, log, extra):
             for e in it["body"]:
                 if e[0] == "start":
                     sg.append("None")
-                elif e[0] == "resume":
+                elif e[0] in ("resume", "resume_rejected"):
                     sg.append("(Some %s)" % zl(e[1]))
             p_its.append(iter_term(reps, it["completed"], sg, it["cb"], it["failed"]))
         out["promo"] = "(%s, %s, %s)" % (cf, lst(p_its), impl)
@@ -420,7 +422,7 @@ def model_cases(spec, log, extra):
                 ep = d[3] if d else 0
                 m = metric_value(spec, t, ep) if d else 0.0
                 reps.append("(%s, (%s, %s))" % (zl(t), q(m), zl(ep)))
-            n_sg = sum(1 for e in it["body"] if e[0] in ("start", "resume"))
+            n_sg = sum(1 for e in it["body"] if e[0] in ("start", "resume", "resume_rejected"))
             s_its.append(iter_term(reps, it["completed"], ["tt"] * n_sg, [], it["failed"]))
         tbl = lst([lst(["(%s, %s)" % (natlit(s), zl(l)) for s, l in rungs]) for rungs in extra["tbl"]])
         out["sync"] = "(%s, %s, %s, %s, %s)" % (cf, tbl, blit(spec["mode"] == "max"), lst(s_its), impl)
@@ -546,7 +548,7 @@ def run(ctx, replay=None):
             ctx.violation("correspondence", "cannot translate the run into model input: %s" % e, case=case,
                           failing_input=False, broken="correspondence log translation (drivers/c20.py)")
             continue
-        if extra["crash"] and not viols:
+        if extra["crash"] and not viols and not extra["crash"].startswith("AssertionError: Cannot resume"):
             # an exception inside the loop is outside the model unless it comes from the modelled asserts
             ctx.notes.append("tuner exception (case skipped for correspondence): " + extra["crash"][:160])
             continue
